@@ -641,13 +641,29 @@ func sampleLines(sb *strings.Builder, r *hx.Rand, name string, scale float64, ta
 	base := []float64{3.2, 1718, 1.5e6, 2.4e9, 0.85, 99.99, 1023, 47}[r.Intn(8)] * scale
 	noise := []float64{0, 0.001, 0.02, 0.3}[r.Intn(4)]
 	units := r.Intn(3)
+	// zero measurements: the column has no geomean (HasSummary false), ratios are not > 0 ("?")
+	zeroNs, zeroB, zeroAllocs := r.Chance(1, 7), r.Chance(1, 4), r.Chance(1, 4)
+	if zeroNs || (tags["units"] && units >= 1 && (zeroB || zeroAllocs)) {
+		tags["zero"] = true
+	}
 	for i := 0; i < n; i++ {
 		v := base * (1 + noise*(r.Float()-0.5))
+		if zeroNs {
+			v = 0
+		}
 		fmt.Fprintf(sb, "Benchmark%s-8 \t%d\t%s ns/op", name, 1+r.Intn(1000), strconv.FormatFloat(v, 'g', 4+r.Intn(4), 64))
 		if units >= 1 && tags["units"] {
-			fmt.Fprintf(sb, "\t%d B/op", r.Intn(5000000))
+			b := r.Intn(5000000)
+			if zeroB {
+				b = 0
+			}
+			fmt.Fprintf(sb, "\t%d B/op", b)
 			if units >= 2 {
-				fmt.Fprintf(sb, "\t%d allocs/op", r.Intn(30))
+				a := 1 + r.Intn(30)
+				if zeroAllocs {
+					a = 0
+				}
+				fmt.Fprintf(sb, "\t%d allocs/op", a)
 			}
 		}
 		sb.WriteString("\n")
@@ -849,7 +865,7 @@ func tagList(tags map[string]bool, order []string) string {
 	return strings.Join(tl, "+")
 }
 
-var e2eTags = []string{"compare", "nodelta", "missing", "tables", "levels2", "levels3", "levels4", "levels5", "multirow", "units", "warn"}
+var e2eTags = []string{"zero", "compare", "nodelta", "missing", "tables", "levels2", "levels3", "levels4", "levels5", "multirow", "units", "warn"}
 
 func runScenario(sc scenario) {
 	myid := id
@@ -906,6 +922,11 @@ func e2eCases(r *hx.Rand) {
 	// the coordinator's witness: three header levels, a non-leaf node preceded by a node with more children
 	os.WriteFile(filepath.Join(dir, "w.txt"), []byte("BenchmarkX/a=A1/b=B1/c=C1-8 1 1 ns/op\nBenchmarkX/a=A1/b=B1/c=C2-8 1 2 ns/op\nBenchmarkX/a=A1/b=B2/c=C3-8 1 3 ns/op\n"), 0o666)
 	runScenario(scenario{[]string{filepath.Join(dir, "w.txt")}, ".fullname", "/a,/b,/c", map[string]bool{"levels3": true, "compare": true}})
+	// testdata/zero.txt-like: a non-baseline column without geomean, two rows (text prints the geomean row) and one row
+	os.WriteFile(filepath.Join(dir, "z.txt"), []byte("note: base\nBenchmarkA-8 1 5 ns/op 3 B/op\nBenchmarkB-8 1 7 ns/op 4 B/op\nnote: zero\nBenchmarkA-8 1 0 ns/op 0 B/op\nBenchmarkB-8 1 8 ns/op 0 B/op\nnote: pos\nBenchmarkA-8 1 6 ns/op 2 B/op\nBenchmarkB-8 1 9 ns/op 5 B/op\n"), 0o666)
+	runScenario(scenario{[]string{filepath.Join(dir, "z.txt")}, ".fullname", "note", map[string]bool{"zero": true, "compare": true}})
+	os.WriteFile(filepath.Join(dir, "z1.txt"), []byte("note: base\nBenchmarkA-8 1 5 ns/op\nnote: zero\nBenchmarkA-8 1 0 ns/op\nnote: pos\nBenchmarkA-8 1 6 ns/op\n"), 0o666)
+	runScenario(scenario{[]string{filepath.Join(dir, "z1.txt")}, ".fullname", "note", map[string]bool{"zero": true, "compare": true}})
 	n := hx.N(150, 3000)
 	for i := 0; i < n; i++ {
 		if i%2 == 0 {
